@@ -183,6 +183,14 @@ class Histogram1D(ObjectWithBinning, HistogramBase):
             if self.dtype.kind in "iu" and np.isnan(missed_array).any():
                 # "Unknown" (e.g. underflow of inconsecutive bins) cannot be stored as an integer
                 self._missed = missed_array
+            elif self.dtype.kind in "iu" and np.any(missed_array % 1):
+                # A float weight outside the bins is content too: not to be truncated
+                if kwargs.get("dtype") is not None:
+                    raise ValueError(
+                        f"Missed weights cannot be stored as {self.dtype} without loss."
+                    )
+                self._missed = missed_array
+                self._coerce_dtype(missed_array.dtype)
             else:
                 self._missed = np.array(missed, dtype=self.dtype)
         else:
@@ -330,6 +338,9 @@ class Histogram1D(ObjectWithBinning, HistogramBase):
         if self._missed.dtype.kind in "iu" and np.isnan(value):
             # "Unknown" cannot be stored as an integer
             self._missed = self._missed.astype(float)
+        elif self._missed.dtype.kind in "iu" and np.asarray(value, dtype=float) % 1:
+            # A float weight promotes the histogram (as in `fill`) instead of being truncated
+            self._coerce_dtype(np.float64)
         self._missed[index] = value
 
     @underflow.setter
